@@ -2,12 +2,10 @@
    (after polls, limit changes, with a diff of the current burst still parked in the ready buffer),
    possibly several times in a row (adapter over adapter over adapter).
    Mirrors /verif/harness/src/m_hand.rs.
-   Unbatched stacks are evaluated LAZILY, exactly like the real streams: every level is the
-   extracted generic loop ChainPoll.gpoll over the poll function of the level below (the source
-   queue at the bottom), so single polls at any level and hand-overs in the middle of a burst of any
-   level are modelled.  Batched adapters have no ready buffer; batched stacks (two stages) use the
-   scripted loop PollLoop.poll_b and, after the hand-over, full drains only (stage by stage to
-   quiescence = the lazy evaluation for full drains).
+   Stacks are evaluated LAZILY, exactly like the real streams: every level is the extracted generic
+   loop (ChainPoll.gpoll for the unbatched flavour, ChainPollB.gpoll_b for the batched one) over the
+   poll function of the level below (the source queue at the bottom), so single polls at any level
+   and hand-overs in the middle of a burst of any level are modelled.
    The hand-over itself is Chain.hand_over_u. *)
 open Model
 open Util
@@ -68,54 +66,51 @@ let with_stage (st : M_chain.stage) (vs : nat list) (f : 'r stage_k) : 'r =
 
 (* ------------------------------------------------------------------ lazy levels (unbatched) *)
 type level = {
-  lpoll : unit -> nat diff option poll;      (* raises Model_panic *)
+  lpoll : unit -> nat diff list option poll; (* one item = [d] (unbatched) or a batch; raises Model_panic *)
   lhand : (unit -> nat list) option;
   lpush_param : int -> unit;
 }
 
-let lazy_level (st : M_chain.stage) (vs : nat list) (lower : unit -> nat diff option poll) : nat list option * level =
+let one = function Pending -> Pending | Ready None -> Ready None | Ready (Some d) -> Ready (Some [d])
+
+let lazy_level_b (st : M_chain.stage) (vs : nat list) (lower : unit -> nat diff list option poll) : nat list option * level =
   with_stage st vs { k = fun ~st0 ~on_diff ~on_param ~has_param ~into_parts ~iv ->
-      let us = ref { u_st = st0; u_ready = [] } in
+      let stt = ref st0 in
       let qp = ref [] in
       let pend = (st.M_chain.flav = "static") in
       let inner () = Ok (((), lower ()), []) in
       (iv,
        { lpoll = (fun () ->
+             match gpoll_b on_diff on_param has_param O inner fuel !stt () !qp pend with
+             | Panic -> raise Model_panic
+             | Ok ((((st', ()), qp'), r), _) -> stt := st'; qp := qp'; r);
+         lhand = (match into_parts with
+             | None -> None
+             | Some ip -> Some (fun () -> ip !stt));   (* no ready buffer in the batched flavour *)
+         lpush_param = (fun n -> qp := !qp @ [i2n n]) }) }
+
+let lazy_level (st : M_chain.stage) (vs : nat list) (lower : unit -> nat diff list option poll) : nat list option * level =
+  with_stage st vs { k = fun ~st0 ~on_diff ~on_param ~has_param ~into_parts ~iv ->
+      let us = ref { u_st = st0; u_ready = [] } in
+      let qp = ref [] in
+      let pend = (st.M_chain.flav = "static") in
+      let inner () =
+        (match lower () with
+         | Pending -> Ok (((), Pending), [])
+         | Ready None -> Ok (((), Ready None), [])
+         | Ready (Some [d]) -> Ok (((), Ready (Some d)), [])
+         | Ready (Some _) -> failwith "unbatched level over a batch") in
+      (iv,
+       { lpoll = (fun () ->
              match gpoll on_diff on_param has_param O inner fuel !us () !qp pend with
              | Panic -> raise Model_panic
-             | Ok ((((us', ()), qp'), r), _) -> us := us'; qp := qp'; r);
+             | Ok ((((us', ()), qp'), r), _) -> us := us'; qp := qp'; one r);
          lhand = (match into_parts with
              | None -> None
              | Some ip -> Some (fun () ->
                  let (us', vals) = hand_over_u keep_ready ip !us in
                  us := us'; vals));
          lpush_param = (fun n -> qp := !qp @ [i2n n]) }) }
-
-(* ------------------------------------------------------------------ batched stage 0 (scripted loop) *)
-type sim0 = { s : sim; hand : unit -> nat list }
-
-let batched_stage0 (st : M_chain.stage) (vs : nat list) : nat list option * sim0 =
-  with_stage st vs { k = fun ~st0 ~on_diff ~on_param ~has_param:_ ~into_parts ~iv ->
-      let iend = ref false and pend = ref (st.M_chain.flav = "static") in
-      let qp = ref [] in
-      let stt = ref st0 and qi = ref [] in
-      (iv,
-       { s = { poll = (fun () ->
-             match poll_b on_diff on_param true !stt !qi !iend !qp !pend with
-             | Panic -> raise Model_panic
-             | Ok ((((st', qi'), qp'), r), tr) ->
-               stt := st'; qi := qi'; qp := qp';
-               (match r with
-                | Pending -> { text = "P"; diffs = []; kind = 'P'; tr }
-                | Ready None -> { text = "N"; diffs = []; kind = 'N'; tr }
-                | Ready (Some ds) -> { text = ""; diffs = ds; kind = 'R'; tr }));
-             push_inner = (fun ds -> qi := !qi @ [ds]);
-             push_param = (fun n -> qp := !qp @ [i2n n]);
-             end_inner = (fun () -> iend := true);
-             end_param = (fun () -> pend := true);
-             inner_ended = (fun () -> !iend);
-             has_param = true };
-         hand = (fun () -> match into_parts with Some ip -> ip !stt | None -> failwith "stage 0 must be head/tail/skip") }) }
 
 (* ------------------------------------------------------------------ *)
 let run_case (case : string) : string =
@@ -170,14 +165,14 @@ let run_case (case : string) : string =
   let stop = ref false in
   let panic_out what =
     Buffer.add_string buf (what ^ (if !src_ok then " ok:nopanic=0" else "")); stop := true in
-  if not batched then begin
-    (* ---------------- unbatched: lazy stack ---------------- *)
-    let q : (nat diff list * bool) ref = ref ([], false) in
+    (* ---------------- lazy stack; the source queue holds items: [d] (unbatched) or whole batches ---------------- *)
+    let q : (nat diff list list * bool) ref = ref ([], false) in
     let source () =
-      (match queue_inner !q with
+      (match queue_inner_b !q with
        | Ok ((q', r), _) -> q := q'; r
        | Panic -> raise Model_panic) in
-    match (try Some (lazy_level stages.(0) vs source) with Model_panic -> None) with
+    let mk_level = if batched then lazy_level_b else lazy_level in
+    match (try Some (mk_level stages.(0) vs source) with Model_panic -> None) with
     | None -> Buffer.add_string buf "init=PANIC"; finish ()
     | Some (iv, l0) ->
       let levels = ref [| l0 |] in
@@ -193,7 +188,7 @@ let run_case (case : string) : string =
                  while !continue do
                    incr cnt;
                    (match (top ()).lpoll () with
-                    | Ready (Some d) -> items := [d] :: !items; fin := 'R'
+                    | Ready (Some ds) -> items := ds :: !items; fin := 'R'
                     | Ready None -> fin := 'N'; continue := false
                     | Pending -> fin := 'P'; continue := false);
                    if ev = "p" || !cnt > 10000 then continue := false
@@ -206,7 +201,7 @@ let run_case (case : string) : string =
                 (try
                    let vals = hand () in
                    let lower = (top ()).lpoll in
-                   let (iv1, l1) = lazy_level stages.(!level + 1) vals lower in
+                   let (iv1, l1) = mk_level stages.(!level + 1) vals lower in
                    levels := Array.append !levels [| l1 |];
                    incr level;
                    Buffer.add_string buf (Printf.sprintf "H=%s/%s" (show_vec vals)
@@ -217,7 +212,7 @@ let run_case (case : string) : string =
               | _ -> Buffer.add_string buf "."
             end else if starts_with "d:" ev || starts_with "b:" ev then begin
               let ds = src_event ev in
-              q := (fst !q @ ds, snd !q); Buffer.add_string buf "."
+              q := (fst !q @ (if batched then [ds] else List.map (fun d -> [d]) ds), snd !q); Buffer.add_string buf "."
             end else if ev.[0] = 'l' then begin
               (match String.split_on_char ':' (String.sub ev 1 (String.length ev - 1)) with
                | [k; v] ->
@@ -231,83 +226,5 @@ let run_case (case : string) : string =
             else failwith ("bad event " ^ ev)
           end) events;
       finish ()
-  end else begin
-    (* ---------------- batched: two stages, scripted loops ---------------- *)
-    match (try Some (batched_stage0 stages.(0) vs) with Model_panic -> None) with
-    | None -> Buffer.add_string buf "init=PANIC"; finish ()
-    | Some (iv, sim0) ->
-      let sim1 : sim option ref = ref None in
-      view := (match iv with Some v -> v | None -> []);
-      Buffer.add_string buf ("init=" ^ (match iv with Some v -> show_vec v | None -> "-"));
-      List.iter (fun ev ->
-          if not !stop then begin
-            Buffer.add_string buf " ; ";
-            if ev = "p" || ev = "D" then begin
-              (try
-                 let items = ref [] and fin = ref 'P' in
-                 (match !sim1 with
-                  | None ->
-                    let continue = ref true and cnt = ref 0 in
-                    while !continue do
-                      incr cnt;
-                      let p = sim0.s.poll () in
-                      (match p.kind with
-                       | 'R' -> items := p.diffs :: !items; fin := 'R'
-                       | c -> fin := c; continue := false);
-                      if ev = "p" || !cnt > 10000 then continue := false
-                    done
-                  | Some s1 ->
-                    if ev = "p" then failwith "batched: single polls after the hand-over are not modelled";
-                    let continue = ref true and cnt = ref 0 in
-                    while !continue do
-                      incr cnt;
-                      let p = sim0.s.poll () in
-                      (match p.kind with
-                       | 'R' -> s1.push_inner p.diffs
-                       | 'N' -> s1.end_inner (); continue := false
-                       | _ -> continue := false);
-                      if !cnt > 10000 then continue := false
-                    done;
-                    let continue = ref true and cnt = ref 0 in
-                    while !continue do
-                      incr cnt;
-                      let p = s1.poll () in
-                      (match p.kind with
-                       | 'R' -> items := p.diffs :: !items; fin := 'R'
-                       | c -> fin := c; continue := false);
-                      if !cnt > 10000 then continue := false
-                    done);
-                 drain_report (List.rev !items) !fin ev
-               with Model_panic -> panic_out "PANIC")
-            end else if ev = "H" then begin
-              if !sim1 <> None || nst < 2 then Buffer.add_string buf "."
-              else
-                (try
-                   let vals = sim0.hand () in
-                   let (iv1, _, s1) = M_chain.build_stage stages.(1) batched vals in
-                   sim1 := Some s1;
-                   incr level;
-                   Buffer.add_string buf (Printf.sprintf "H=%s/%s" (show_vec vals)
-                                            (match iv1 with Some v -> show_vec v | None -> "-"));
-                   view := (match iv1 with Some v -> v | None -> []);
-                   app_ok := true
-                 with Model_panic -> panic_out "H=PANIC")
-            end else if starts_with "d:" ev || starts_with "b:" ev then begin
-              let ds = src_event ev in
-              sim0.s.push_inner ds; Buffer.add_string buf "."
-            end else if ev.[0] = 'l' then begin
-              (match String.split_on_char ':' (String.sub ev 1 (String.length ev - 1)) with
-               | [k; v] ->
-                 let k = int_of_string k and v = int_of_string v in
-                 params.(k) <- Some v;
-                 if k = 0 then sim0.s.push_param v
-                 else (match !sim1 with Some s1 -> s1.push_param v | None -> failwith "l1 before H")
-               | _ -> failwith ev);
-              Buffer.add_string buf "."
-            end else if ev = "es" then (sim0.s.end_inner (); Buffer.add_string buf ".")
-            else failwith ("bad event " ^ ev)
-          end) events;
-      finish ()
-  end
 
 let run_line (line : string) = print_string (run_case line); print_newline ()
